@@ -9,10 +9,12 @@ import (
 	"hash/fnv"
 	"os"
 	"runtime/debug"
+	"runtime/metrics"
 	"sort"
 	"strconv"
 	"strings"
 	"sync"
+	"sync/atomic"
 	"testing"
 	"time"
 
@@ -192,11 +194,43 @@ func (s *statsT) flush() {
 
 // evaluate runs one case through its check function, converting panics of the code under
 // test (that the check did not itself expect) into errors, and records the case.
+// currentSub is the sub-property whose case is being evaluated (one at a time per process).
+var currentSub *Sub
+
+// memory watchdog (sub-properties whose inputs and oracles are small, so that gigabytes of live heap can only come
+// from the code under test): once the heap exceeds 6 GB the case being evaluated is recorded as a failure and the
+// process ends, before the address-space limit kills it without a trace
+var (
+	currentRaw   atomic.Value // []byte: the case being evaluated
+	memWatchOnce sync.Once
+)
+
+func startMemWatch() {
+	memWatchOnce.Do(func() {
+		go func() {
+			sample := []metrics.Sample{{Name: "/memory/classes/heap/objects:bytes"}}
+			for {
+				time.Sleep(100 * time.Millisecond)
+				metrics.Read(sample)
+				if sample[0].Value.Kind() == metrics.KindUint64 && sample[0].Value.Uint64() > 6<<30 {
+					raw, _ := currentRaw.Load().([]byte)
+					hang(currentSub, raw, fmt.Sprintf("the live heap grew beyond 6 GB (%d MB) while this case was evaluated", sample[0].Value.Uint64()>>20))
+				}
+			}
+		}()
+	})
+}
+
 func evaluate[C any](s *Sub, c C, check func(C, *Rec) error) (err error) {
+	currentSub = s
 	rec := &Rec{}
 	raw, merr := json.Marshal(c)
 	if merr != nil {
 		return fmt.Errorf("harness: cannot marshal case: %v", merr)
+	}
+	if strings.HasPrefix(s.Name, "C11_") || strings.HasPrefix(s.Name, "C10_") || strings.HasPrefix(s.Name, "C18_") {
+		currentRaw.Store(raw)
+		startMemWatch()
 	}
 	// diagnostics only (never part of a verdict): a case that is still running after a minute is written next to the
 	// stats file, so that a run that ends at its deadline (INCONCLUSIVE) names the input that consumed the time
